@@ -98,7 +98,11 @@ func c03SweepPrograms(maxLen int) []*ts.Program {
 		progs = append(progs, ts.Single(stmts))
 	}
 	// slices: every index of slices of length 0..maxLen+1 (crossing 9 -> 10), growth by 0, 1, >= 2
-	for _, L := range []int{0, 1, 2, 9, 10, 11, maxLen + 3} {
+	lens := []int{0, 1, 2, 9, 10, 11, maxLen + 3, 20, 40} // the property names lengths 0..40
+	if maxLen > 6 {
+		lens = append(lens, 19, 21, 30, 39)
+	}
+	for _, L := range lens {
 		s := vr("s", ts.TIntS)
 		lit := ts.SliceLit{Elem: ts.TInt}
 		for i := 0; i < L; i++ {
